@@ -325,10 +325,27 @@ def pipelines():
             rs.data.lag(1),
             rs.ops.scan(lambda acc, i: acc + [i], seed=list)]))
 
-    return [('roll(3,2,count)', p_roll), ('group_by(i%3,sum)', p_group),
-            ('group_by(i%2,roll(2,2,mean))', p_group_roll),
-            ('group_by(group_by(count))', p_group_group),
-            ('distinct_until_changed|lag|scan', p_distinct_lag)]
+    fixed = [('roll(3,2,count)', p_roll), ('group_by(i%3,sum)', p_group),
+             ('group_by(i%2,roll(2,2,mean))', p_group_roll),
+             ('group_by(group_by(count))', p_group_group),
+             ('distinct_until_changed|lag|scan', p_distinct_lag)]
+    # random well-typed nested pipelines from the multiplexed-stream checks' grammar: the
+    # store traffic of every stateful operator under key re-use (windows, segments, groups)
+    import random
+    from harness import mux as M
+    from harness import muxgen as G
+    from harness import muxcheck as MC
+    rng = random.Random(C.seed() * 31 + 14)
+    rnd = []
+    for j in range(int(os.environ.get('C14_RANDOM_PIPES', '24'))):
+        desc = G.gen_pipe(rng, 'int', rng.choice([1, 2, 3]), rng.choice([1, 2]))[0]
+        items = [rng.randint(-2, 4) for _ in range(rng.randint(0, 14))]
+
+        def build(store, desc=desc, items=items):
+            ops = M.build(desc, None, [], {'routers': []})
+            return rx.from_(items).pipe(rs.state.with_store(store, ops))
+        rnd.append(('random#%d %s' % (j, ' '.join(MC.op_names(desc))), build))
+    return fixed + rnd
 
 
 def record_pipeline(name, build):
